@@ -158,6 +158,19 @@ pub proof fn lemma_ndigits_unique(n: int, d: int)
     if e > d { lemma_pow10_mono(d, e - 1); if n == 0 { } }
 }
 
+
+/// v < 10^j and 10^j <= 2v  ==>  v has exactly j digits and its leading digit is >= 5
+pub proof fn lemma_ndigits_unique_half(v: int, j: int)
+    requires v > 0, j >= 0, v < pow10(j), pow10(j) <= 2 * v
+    ensures j >= 1, ndigits(v) == j, 2 * v >= pow10(ndigits(v))
+{
+    if j == 0 { }
+    else {
+        lemma_pow10_succ(j - 1);
+        lemma_ndigits_unique(v, j);
+    }
+}
+
 // ------------------------------------------------------------------ digit sequences
 /// value of little-endian decimal digit sequence
 pub open spec fn dle(s: Seq<u8>) -> int
